@@ -96,7 +96,7 @@ def constraint_jobs(tier, tags):
                        bounds='pattern 1..%d tokens of any kind with 1-2 letter texts, index lists per invariant, 0..2 matched tokens per position with 1-2 letter texts' % rs,
                        functions=['MacroDetector::check_constraint']))
     d3 = dict(d, MA_CT=13, MA_NERR=3)
-    shapes = [0, 1] if tier == 'quick' else [0, 1, 2, 3]
+    shapes = [1] if tier == 'quick' else [0, 1, 2, 3]
     for k in shapes:
         jobs.append(fw.Job('macro.extract_%d' % k, H, 'h_extract_%d' % k, tus=[], defines=_defs(d3), caps=CAPS, unwind=15, tags=list(tags), ub_pat=UB_PAT, timeout=900, stubs=BASE_STUBS,
                            native=False, extra=['--object-bits', '12'], build_key=('macro.extract',),
